@@ -1018,11 +1018,12 @@ def ops_programs(tier, opts):
             data = [False] + [not nf[c] for c in range(1, n + 1)]
             variants = [(nf, None)]
             if owners and not (quick and n == 4):
-                for two in (owners if not quick else owners[:1]):
+                few = quick or (n == 4 and len(owners) >= 3)      # variant on one owner only
+                for two in (owners[:1] if few else owners):
                     nf2 = list(nf)
                     nf2[two] = 2
                     variants.append((nf2, None))
-                for s in (owners if not quick else owners[-1:]):
+                for s in (owners[-1:] if few else owners):
                     sub = [False] * (n + 1)
                     sub[s] = True
                     variants.append((nf, sub))
@@ -1203,11 +1204,14 @@ def run(ctx):
     ctx.coverage.update(
         programs_ops=len(items), programs_structure=len(scases), programs_unmerged=n_unm,
         bounds=dict(tree_nodes_below_Renderable="1..4, every shape, up to isomorphism",
-                    args_owner_subsets="all", variants="one owner with 2 fields; one owner with a namespace subclass",
+                    args_owner_subsets="all",
+                    variants="one owner with 2 fields; one owner with a namespace subclass (thorough: every position "
+                             "of that owner, except 4-class programs with >= 3 owners: first / last owner)",
                     seeding=["eager", "lazy"],
                     values={"quick": "a in {default, float(default), 1, True} (4-class programs: without the int 1); "
                                      "b in {default tuple (a fresh equal tuple), 1}",
-                            "thorough": "a in {default, float(default), 1, True} (+ 2 in programs with <= 2 classes); "
+                            "thorough": "a in {default, float(default), 1, True} (+ 2 in programs with <= 2 classes; "
+                                        "without the int 1 in 4-class programs with >= 3 owners); "
                                         "b in {default tuple (a fresh equal tuple), 1}"}[tier],
                     constructor="every class x init in {absent, None, every set in the pool} x <=2 namespaces",
                     depth={"quick": "3 (2 for 4-class programs with >= 3 owners; no variants for 4-class programs)",
